@@ -17,6 +17,7 @@ package c09
 import (
 	"fmt"
 	"math"
+	"runtime"
 	"strings"
 	"sync"
 
@@ -62,14 +63,14 @@ var ctxNames = []string{"top", "map", "forEach", "sort", "gen", "gen2", "getter"
 
 // caseT is one fully materialised case.
 type caseT struct {
-	Mode   string // "gen" | "async"
-	Prog   *genref.Program
-	Hist   []genref.Op
-	AHist  [][]genref.AOp
-	Two    bool      // create G[1] too
-	CrArgs [2][2]int // V indices of (a, b) for create(slot)
-	CtxA   []ctxSpec // index 0 (and 1 if Two): creation calls; then one per op / group
-	CtxB   []ctxSpec
+	Mode        string // "gen" | "async"
+	Prog        *genref.Program
+	Hist        []genref.Op
+	AHist       [][]genref.AOp
+	Two         bool      // create G[1] too
+	CrArgs      [2][2]int // V indices of (a, b) for create(slot)
+	CtxA        []ctxSpec // index 0 (and 1 if Two): creation calls; then one per op / group
+	CtxB        []ctxSpec
 	SrcOverride string   // hand-written program text (pinned witnesses, debugging): used instead of Prog.Source()
 	Expect      []string // pinned witnesses: the event log prescribed by the specification (instead of the model)
 	Pinned      string   // name of the pinned witness
@@ -95,14 +96,14 @@ type ctxSpec struct {
 func (s ctxSpec) String() string { return strings.Join(s.Chain, ">") + ":" + s.Term }
 
 type caseJSON struct {
-	Mode    string          `json:"mode"`
-	Src     string          `json:"src"`
-	History []genref.Op     `json:"history,omitempty"`
-	Groups  [][]genref.AOp  `json:"groups,omitempty"`
-	Create  [2][2]int       `json:"create_args"`
-	Two     bool            `json:"two_instances"`
-	CtxA    []string        `json:"ctx_a"`
-	CtxB    []string        `json:"ctx_b"`
+	Mode    string         `json:"mode"`
+	Src     string         `json:"src"`
+	History []genref.Op    `json:"history,omitempty"`
+	Groups  [][]genref.AOp `json:"groups,omitempty"`
+	Create  [2][2]int      `json:"create_args"`
+	Two     bool           `json:"two_instances"`
+	CtxA    []string       `json:"ctx_a"`
+	CtxB    []string       `json:"ctx_b"`
 }
 
 func (cs *caseT) materialise() caseJSON {
@@ -829,14 +830,19 @@ func evaluate(cs *caseT, st *core.Stats) core.Result {
 		if res.NonTrivial {
 			st.Inc("nontrivial:" + cs.Mode)
 		}
-		if st.WantSample() && res.NonTrivial {
+		if st.WantSample() && res.NonTrivial && cs.Pinned == "" {
 			st.Sample(cs.materialise())
 		}
 	}
 	return res
 }
 
+var procsOnce sync.Once
+
 func run(c *core.Ctx) core.Result {
+	// A worker is a single-threaded workload (one worker per core); the model hands control between goroutines on
+	// every yield, which is a plain goroutine switch with one P but a futex wake-up per hand-off with several.
+	procsOnce.Do(func() { runtime.GOMAXPROCS(1) })
 	cs := genCase(c)
 	if c.Replay {
 		fmt.Printf("--- case (%s) ---\n%s\nhistory: %s\nctxA: %v\nctxB: %v\n", cs.Mode, cs.source(), cs.histString(), cs.CtxA, cs.CtxB)
